@@ -5,6 +5,7 @@ import (
 
 	"google.golang.org/protobuf/encoding/protowire"
 	"google.golang.org/protobuf/reflect/protoreflect"
+	"google.golang.org/protobuf/types/descriptorpb"
 )
 
 // Rec is one symbol of a wire-record alphabet: a (possibly malformed) chunk
@@ -21,7 +22,50 @@ type WireOpt struct {
 	NoGeneric bool
 }
 
+// EnforceUTF8 is the reference answer to "must this string field be valid
+// UTF-8": proto3 yes, proto2 no, editions the utf8_validation feature resolved
+// here, independently of the implementation, as the edition default (VERIFY for
+// every edition >= 2023) overridden by the nearest explicit setting along the
+// file / enclosing-scope / field options chain.
 func EnforceUTF8(fd protoreflect.FieldDescriptor) bool {
+	if xtd, ok := fd.(protoreflect.ExtensionTypeDescriptor); ok {
+		fd = xtd.Descriptor()
+	}
+	switch fd.Syntax() {
+	case protoreflect.Proto3:
+		return true
+	case protoreflect.Proto2:
+		return false
+	}
+	val := descriptorpb.FeatureSet_VERIFY
+	apply := func(fs *descriptorpb.FeatureSet) {
+		if fs != nil && fs.Utf8Validation != nil {
+			val = fs.GetUtf8Validation()
+		}
+	}
+	var chain []protoreflect.Descriptor
+	for d := protoreflect.Descriptor(fd); d != nil; d = d.Parent() {
+		chain = append(chain, d)
+	}
+	for i := len(chain) - 1; i >= 0; i-- {
+		switch o := chain[i].Options().(type) {
+		case *descriptorpb.FileOptions:
+			apply(o.GetFeatures())
+		case *descriptorpb.MessageOptions:
+			apply(o.GetFeatures())
+		case *descriptorpb.FieldOptions:
+			apply(o.GetFeatures())
+		}
+	}
+	return val == descriptorpb.FeatureSet_VERIFY
+}
+
+// ImplEnforceUTF8 reads the implementation's own pseudo-internal accessor (for
+// accessor dumps that compare two constructions of the same descriptor).
+func ImplEnforceUTF8(fd protoreflect.FieldDescriptor) bool {
+	if xtd, ok := fd.(protoreflect.ExtensionTypeDescriptor); ok {
+		fd = xtd.Descriptor()
+	}
 	if x, ok := fd.(interface{ EnforceUTF8() bool }); ok {
 		return x.EnforceUTF8()
 	}
